@@ -49,7 +49,13 @@ class RandomVectorizedStrategy(vb.VectorizedStrategy[None]):
 
     self._suggestion_batch_size = suggestion_batch_size
     self.n_feature_dimensions_with_padding = n_feature_dimensions_with_padding
-    self.n_feature_dimensions = n_feature_dimensions_with_padding
+    # The real (unpadded) number of features: the optimizer zeroes out the
+    # dimensions beyond it, so that padding never reaches the score function
+    # or the returned candidates.
+    self.n_feature_dimensions = types.ContinuousAndCategorical(
+        len(converter.output_specs.continuous),
+        len(converter.output_specs.categorical),
+    )
     self.dtype = types.ContinuousAndCategorical(jnp.float64, types.INT_DTYPE)
 
     self._categorical_logits = None
